@@ -353,3 +353,38 @@ package gtab
 //@     invariant parser.inv(p) && faults(p.r) <= old(faults(p.r)) && p.r == old(p.r)
 //@   loop 2
 //@     invariant parser.inv(p) && (isnil(entries) || fresh(entries)) && faults(p.r) <= old(faults(p.r)) && p.r == old(p.r) && info != nil && fresh(info)
+
+// Subtable readers (values of type subtableReader: readGsubSubtable,
+// readGposSubtable): assumed to keep the parser invariant, to return reader
+// faults and to write only the parser and byte buffers (their own totality is
+// not under contract).
+//@ functype subtableReader(p *parser.Parser, pos int64, meta *LookupMetaInfo) (s Subtable, err error)
+//@   requires parser.inv(p) && meta != nil
+//@   ensures err == nil ==> parser.inv(p) && s != nil && (is(s, *extensionSubtable) ==> s.(*extensionSubtable) != nil)
+//@   ensures p.r == old(p.r) && faults(p.r) >= old(faults(p.r)) && (faults(p.r) > old(faults(p.r)) ==> err != nil)
+//@   modifies p.*, allelems(byte), rpos(p.r), faults(p.r)
+
+//@ func isExtension(ss []Subtable) (tp uint16, ok bool)   props: C02
+//@   requires forall k int :: 0 <= k && k < len(ss) ==> (is(ss[k], *extensionSubtable) ==> ss[k].(*extensionSubtable) != nil)
+//@   ensures ok ==> len(ss) >= 1
+//@   modifies nothing
+
+// readLookupList: no panic and termination for every behaviour of the subtable
+// readers; at most 6000 lookups plus subtables are accepted.
+//@ func readLookupList(p *parser.Parser, pos int64, sr subtableReader) (ll LookupList, err error)   props: C02 C08 C18
+//@   requires parser.inv(p) && pos >= 0 && pos <= 2305843009213693952 && sr != nil
+//@   ensures faults(p.r) > old(faults(p.r)) ==> err != nil
+//@   ensures err == nil ==> parser.inv(p) && forall i int :: 0 <= i && i < len(ll) ==> ll[i] != nil && ll[i].Meta != nil
+//@   ensures p.r == old(p.r)
+//@   loop 0
+//@     invariant parser.inv(p) && p.r == old(p.r) && faults(p.r) <= old(faults(p.r)) && fresh(res) && len(res) == len(lookupOffsets) && (isnil(subtableOffsets) || fresh(subtableOffsets)) && numLookups >= 0 && numSubTables >= 0 && numLookups + numSubTables <= 6000 && sr != nil && pos >= 0 && pos <= 2305843009213693952
+//@     invariant forall k int :: 0 <= k && k < iter ==> res[k] != nil && res[k].Meta != nil
+//@   loop 1
+//@     invariant parser.inv(p) && p.r == old(p.r) && faults(p.r) <= old(faults(p.r)) && 0 <= j && j <= subTableCount && len(subtableOffsets) == j && (isnil(subtableOffsets) || fresh(subtableOffsets)) && fresh(res)
+//@     decreases subTableCount - j
+//@   loop 2
+//@     invariant forall k int :: 0 <= k && k < len(subtables) ==> (is(subtables[k], *extensionSubtable) ==> subtables[k].(*extensionSubtable) != nil)
+//@     invariant parser.inv(p) && p.r == old(p.r) && faults(p.r) <= old(faults(p.r)) && fresh(subtables) && len(subtables) == subTableCount && len(subtableOffsets) == subTableCount && meta != nil && fresh(meta) && sr != nil && fresh(res) && lookupTablePos >= 0 && lookupTablePos <= 2305843009213759487
+//@   loop 3
+//@     invariant forall k int :: 0 <= k && k < len(subtables) ==> (is(subtables[k], *extensionSubtable) ==> subtables[k].(*extensionSubtable) != nil)
+//@     invariant parser.inv(p) && p.r == old(p.r) && faults(p.r) <= old(faults(p.r)) && fresh(subtables) && len(subtables) == subTableCount && len(subtableOffsets) == subTableCount && meta != nil && fresh(meta) && sr != nil && fresh(res) && lookupTablePos >= 0 && lookupTablePos <= 2305843009213759487
